@@ -663,10 +663,12 @@ def gate_xsd(ctx):
                     if st["k"] == "assign" and not st["place"]["p"] and st["rv"]["k"] == "use" and st["rv"]["op"].get("bool") is False and b.locals[st["place"]["l"]].get("name"):
                         mark.append((bi, st["place"]["l"]))
             dead = [bi for bi, l in mark if not sx.executable(bi) and sp.executable(bi)]
-            site("reluctant", len(dead) >= 1, "the store that makes a quantifier reluctant is reachable under XSD (or gone)", b.loc(rel[0]))
             from .quant import piece_paths
 
             pps = piece_paths(ctx)
+            # the store `greedy = false` is dead under XSD - or, when the flag is no named variable any more (a helper
+            # returning it was inlined), the path table below decides alone
+            site("reluctant", len(dead) >= 1 or bool(pps), "the store that makes a quantifier reluctant is reachable under XSD (or gone)", b.loc(rel[0]))
             if pps:
                 acc = [pp for pp in pps[1] if pp.marker and pp.xsd is not False and pp.kind != "Err"]
                 site("reluctant-marker-rejected", not acc, "a path accepts the reluctant marker '?' without having excluded the XSD dialect (%d paths): e.g. outcome %s" % (len(acc), acc[0].kind if acc else ""), b.loc())
